@@ -57,7 +57,7 @@ PROPS = {
     "C11": dict(gens=["C11"], quick=7000, thorough=250000),
     "C12": dict(gens=["C12"], quick=4000, thorough=150000),
     "C13": dict(gens=["C13"], quick=14000, thorough=300000),
-    "C17": dict(gens=["C17"], quick=10000, thorough=200000, known=["K1"]),
+    "C17": dict(gens=["C17"], quick=14000, thorough=200000, known=["K1"]),
     "C18": dict(gens=["C18"], quick=700, thorough=20000),
     "C19": dict(gens=["C19"], quick=1200, thorough=20000),
     "C20": dict(gens=["C20"], quick=9000, thorough=120000),
